@@ -779,6 +779,22 @@ def main():
                        'model': o['model'], 'smt_file': o['smt_file'], 'replay_status': rstatus, 'replay_command': rcmd, 'replay_output': rout}, open(rp, 'w'), indent=1)
             violations.append('VIOLATION property=%s replay=%s%s' % (a.prop, rp, '' if o['model'] else ' no-failing-input-found'))
     regression = []
+    # bounded stand-ins (labelled bounded; not part of the obligation counts): real functions outside the verifier's
+    # reach, executed exhaustively up to a stated bound on the tree under check
+    import subprocess
+    for b in cfg.get('bounded', []):
+        t1 = time.time()
+        cmd = [c.replace('$REPO', os.environ.get('GOVC_REPO', '/repo')) for c in b['cmd']]
+        try:
+            pr = subprocess.run(cmd, cwd=V, capture_output=True, text=True, timeout=300); ok = pr.returncode == 0; outp = pr.stdout + pr.stderr
+        except Exception as e:
+            ok = False; outp = 'bounded stand-in could not be run: %s' % e
+        print('  bounded        %-8s %6.2fs          %s [%s]' % ('ok' if ok else 'FAILED', time.time() - t1, b['name'], b['bound']))
+        regression.append({'name': b['name'], 'stands_for': b.get('stands_for'), 'bound': b['bound'], 'command': ' '.join(cmd), 'result': 'ok' if ok else 'FAILED', 'seconds': time.time() - t1})
+        if not ok:
+            rp = '%s/bounded_%s.log' % (rp_dir, re.sub(r'\W', '', b['name']))
+            open(rp, 'w').write('bounded stand-in %r (%s) failed\ncommand: %s\n\n%s' % (b['name'], b['bound'], cmd, outp[-8000:]))
+            violations.append('VIOLATION property=%s replay=%s' % (a.prop, rp))
     if a.tier == 'thorough':
         # the registered replay tests of this property (one per defect found so far) must pass on this tree
         import subprocess
